@@ -7,6 +7,7 @@ package engines
 
 import (
 	"bytes"
+	"context"
 	"crypto/ed25519"
 	"crypto/x509"
 	"encoding/json"
@@ -41,7 +42,11 @@ type rootsCase struct {
 	Reinit    bool   `json:"reinitialize"`
 	Wrap      bool   `json:"storage_wrapper"`
 	WrapKind  string `json:"storage_wrapper_kind,omitempty"` // with storage_wrapper: "" one aead key | nokeyid | pooled | envelope
-	Backend   string `json:"backend"`
+	// NoOverwrite: the storage is insert-only for the roots record: a Store over an existing roots record is
+	// refused with the library's duplicate-record error. A call that has to write then fails - or, if it
+	// reports success, its result obeys the decision table like any other.
+	NoOverwrite bool   `json:"storage_refuses_to_overwrite_roots,omitempty"`
+	Backend     string `json:"backend"`
 	// walk
 	Steps int   `json:"steps,omitempty"`
 	Seed  int64 `json:"seed,omitempty"`
@@ -155,6 +160,18 @@ type rootsChecker struct {
 	s  *world.Server
 }
 
+// rootsInsertOnly refuses to overwrite an existing roots record
+type rootsInsertOnly struct{ nodeenrollment.Storage }
+
+func (st rootsInsertOnly) Store(ctx context.Context, m nodeenrollment.MessageWithId) error {
+	if rc, ok := m.(*types.RootCertificates); ok && rc != nil {
+		if err := st.Storage.Load(ctx, &types.RootCertificates{Id: rc.GetId()}); err == nil {
+			return new(types.DuplicateRecordError)
+		}
+	}
+	return st.Storage.Store(ctx, m)
+}
+
 func (k *rootsChecker) viol(key, what string) { k.c.R.Violation(key, what, k.rc) }
 
 // wellFormed checks a root this call minted (or, for carried roots, that it is unchanged elsewhere)
@@ -223,6 +240,10 @@ func (k *rootsChecker) call(pre preState, assertAction bool, stepDesc string) *t
 	if err != nil {
 		if ret != nil {
 			k.viol("error-with-roots", "error returned together with a root set")
+		}
+		if k.rc.NoOverwrite {
+			r.Count("calls_refused_on_insert_only_storage", 1)
+			return nil
 		}
 		k.viol("rotation-failed", fmt.Sprintf("rotation call failed on a loadable state (%s): %v", stepDesc, err))
 		return nil
@@ -542,7 +563,11 @@ func runRootsCase(c *engine.Ctx, rc rootsCase) {
 		runRootsUnreadable(c, rc)
 		return
 	}
-	s, err := world.NewServer(world.ServerCfg{Backend: rc.Backend, StorageWrap: rc.Wrap, StorageWrapKind: rc.WrapKind, NoRoots: true})
+	scfg := world.ServerCfg{Backend: rc.Backend, StorageWrap: rc.Wrap, StorageWrapKind: rc.WrapKind, NoRoots: true}
+	if rc.NoOverwrite {
+		scfg.Wrap = func(in nodeenrollment.Storage) nodeenrollment.Storage { return rootsInsertOnly{in} }
+	}
+	s, err := world.NewServer(scfg)
 	if err != nil {
 		r.Broken(err.Error())
 		return
@@ -846,8 +871,19 @@ func runRoots(c *engine.Ctx) engine.Result {
 			nw++
 		}
 	}
+	// every fourth order case once more on a storage that is insert-only for the roots record
+	no := 0
+	for _, cs := range append([]rootsCase{}, cases...) {
+		if cs.Kind == "order" && !cs.Reinit {
+			if no++; no%4 == 0 {
+				cs.NoOverwrite = true
+				cases = append(cases, cs)
+			}
+		}
+	}
 	sort.SliceStable(cases, func(i, j int) bool { return cases[i].Backend < cases[j].Backend })
 	engine.ForEach(len(cases), engine.Workers(), func(i int) { runRootsCase(c, cases[i]) })
+	r.Require("calls_refused_on_insert_only_storage", 20)
 	for _, a := range []string{"nochange", "promote", "remint-next", "startover"} {
 		r.Require("action_as_expected:"+a, 5)
 	}
